@@ -9,6 +9,10 @@ for d in sorted([d for d in glob.glob(ROOT + '/seeded/*/') if '/_' not in d]):
     prop = props[0]
     r = subprocess.run([ROOT + '/selftest/run.py', '--patch', d + 'patch.diff', '--props', prop, '--no-suite'], capture_output=True, text=True)
     ok = '-> ok' in r.stdout
+    if 'does not apply' in r.stdout + r.stderr:
+        print('PATCH DOES NOT APPLY ' + prop + ' ' + os.path.basename(d.rstrip('/')), flush=True)
+        bad += 1
+        continue
     print(('caught ' if ok else 'MISSED ') + prop + ' ' + os.path.basename(d.rstrip('/')), flush=True)
     bad += 0 if ok else 1
 print('all caught' if bad == 0 else f'{bad} MISSED')
